@@ -381,11 +381,17 @@ class proxy( object ):
 
         """
         with self.gateway as connection: # waits 'til any Thread's txn. completes
-            connection.list_identity( timeout=self.timeout )
-            rsp,ela		= client.await_response( connection, timeout=self.timeout )
-            assert rsp, \
-                "No response to List Identity within timeout: %r" % ( self.timeout )
-            return rsp,ela
+            try:
+                connection.list_identity( timeout=self.timeout )
+                rsp,ela		= client.await_response( connection, timeout=self.timeout )
+                assert rsp, \
+                    "No response to List Identity within timeout: %r" % ( self.timeout )
+                return rsp,ela
+            except Exception as exc:
+                # Discard the gateway *before* releasing exclusive access; otherwise, another Thread
+                # could begin its I/O on it, and harvest our delayed response as its own.
+                self.close_gateway( exc )
+                raise
 
     @staticmethod
     def is_request( req ):
@@ -678,6 +684,11 @@ class proxy( object ):
                             break
                 typ_types	= [td[0] for td in typ_dat] if typ_is_list else typ_dat[0][0]
                 yield res,(sts,(att,typ_types,uni))
+          except Exception as exc:
+            # Discard the gateway *before* releasing exclusive access; otherwise, another Thread
+            # blocked above could begin its I/O on it, and harvest our delayed responses as its own.
+            self.close_gateway( exc )
+            raise
           finally:
             log.info( "Releasing gateway %r connection, after polling  %7.3fs", self.gateway, timer() - polling )
 
